@@ -73,6 +73,26 @@ pub fn format_error(e: &Error) -> String {
 	out
 }
 
+/// Renders the error with the compact trace format in every path style and several trace lengths; returns
+/// the total length. The point is that rendering itself must not panic. (The explaining format is driven
+/// through supervised child processes, scenario c04_explain: its renderer can loop without bound.)
+pub fn format_error_all(e: &Error) -> usize {
+	let mut n = 0;
+	for resolver in [PathResolver::FileName, PathResolver::Absolute, PathResolver::Relative(std::path::PathBuf::from("/lib"))] {
+		for max_trace in [20usize, 1, 0] {
+			let mut out = String::new();
+			let _ = CompactFormat {
+				resolver: resolver.clone(),
+				max_trace,
+				padding: 4,
+			}
+			.write_trace(&mut out, e);
+			n += out.len();
+		}
+	}
+	n
+}
+
 /// Strict conversion of a value to JSON through the public Val API (no manifest code involved).
 pub fn val_to_json(v: &Val, depth: usize) -> Result<Value, Error> {
 	if depth > 64 {
